@@ -15,7 +15,7 @@ import types
 import z3
 
 from . import val as V
-from .val import SV, Obj, MList, MDict, lower, deep_symbolic
+from .val import SV, Obj, MList, MDict, PDict, PList, norm, lower, deep_symbolic
 
 
 class Unsupported(Exception):
@@ -418,8 +418,16 @@ class Interp:
                 env.vars[prm.arg] = self.eval(d, fn.env or Env(), fn.module)
             else:
                 raise PyRaise(TypeError(f"{fn.name}() missing keyword-only argument '{prm.arg}'"))
-        if a.kwarg:
-            env.vars[a.kwarg.arg] = kwargs
+        splat = kwargs.pop("__splat__", None)
+        if splat is not None:
+            if not a.kwarg:
+                raise Unsupported("symbolic ** argument passed to a function without **kwargs")
+            m = MDict(lower(splat))
+            for k, v in kwargs.items():
+                m.t = V.VDict(V.d_set(V.vd(m.t), lower(k), lower(v)))
+            env.vars[a.kwarg.arg] = m
+        elif a.kwarg:
+            env.vars[a.kwarg.arg] = norm(kwargs) if isinstance(kwargs, (MDict, PDict)) else PDict(kwargs)
         elif kwargs:
             raise PyRaise(TypeError(f"{fn.name}() got an unexpected keyword argument '{next(iter(kwargs))}'"))
 
@@ -677,7 +685,7 @@ class Interp:
                 raise PyRaise(e)
             return
         if isinstance(o, MDict):
-            o.t = V.VDict(V.d_set(V.vd(o.t), lower(k), lower(v)))
+            o.t = V.VDict(V.d_set(V.vd(o.t), lower(k), V.store_lower(v)))
             return
         raise Unsupported(f"item assignment on {type(o).__name__}")
 
@@ -710,7 +718,7 @@ class Interp:
         m = getattr(self, "ex_" + type(e).__name__, None)
         if m is None:
             raise Unsupported(f"expression {type(e).__name__} (line {getattr(e, 'lineno', '?')})")
-        return m(e, env, module)
+        return norm(m(e, env, module))
 
     def ex_Constant(self, e, env, module):
         return e.value
@@ -1005,7 +1013,7 @@ class Interp:
         return self.eval(e.orelse, env, module)
 
     def ex_List(self, e, env, module):
-        out = []
+        out = PList()
         for x in e.elts:
             if isinstance(x, ast.Starred):
                 out.extend(self.iterate(self.eval(x.value, env, module)))
@@ -1014,7 +1022,7 @@ class Interp:
         return out
 
     def ex_Tuple(self, e, env, module):
-        return tuple(self.ex_List(e, env, module))
+        return tuple(list.__iter__(self.ex_List(e, env, module)))
 
     def ex_Set(self, e, env, module):
         items = self.ex_List(e, env, module)
@@ -1023,7 +1031,7 @@ class Interp:
         return set(items)
 
     def ex_Dict(self, e, env, module):
-        out = {}
+        out = PDict()
         for k, v in zip(e.keys, e.values):
             if k is None:
                 d = self.eval(v, env, module)
@@ -1184,7 +1192,7 @@ def explore(run, ctx, max_paths=3000):
             results.append((p, ("abort", None)))
         except PyRaise as pr:
             results.append((p, ("raise", pr)))
-        except Unsupported as u:
+        except (Unsupported, V.AliasingUnsupported) as u:
             results.append((p, ("unsupported", str(u))))
         work.extend(p.alternatives)
         if len(results) > max_paths:
